@@ -176,6 +176,12 @@ def oracle(tlines, max_alloc):
             i, v, r, init = int(f[2]), int(f[3]), int(f[4]), int(f[5])
             if r != v or init != INITIALIZED:
                 fail("impl:set-get", "mi_option_set(%d, %d) then mi_option_get gives %d (init %d)" % (i, v, r, init), "mi_option_set(%d,%d); mi_option_get(%d)" % (i, v, i))
+        elif k == "optrange":
+            if f[2] != "0":
+                fail("impl:option-index", "an out-of-range option index is not ignored: mi_option_set / set_default / set_enabled with index _mi_option_last+%d changed memory behind the option table" % (int(f[2]) - 1),
+                     "mi_option_set((mi_option_t)(_mi_option_last + %d), v)" % (int(f[2]) - 1))
+            elif f[3] != "0":
+                fail("impl:option-index", "mi_option_get of an out-of-range option index returns %s instead of 0" % f[3], "mi_option_get((mi_option_t)_mi_option_last)")
         elif k == "strl":
             if f[4] != "1":
                 fail("impl:strl", "%s with dest_size %s: result is not a terminated prefix copy" % ("_mi_strlcat" if f[2] == "1" else "_mi_strlcpy", f[3]), l)
